@@ -87,7 +87,7 @@ func (r *Recomposer) registerComposer(rt reflect.Type, fun RecomposeFunc) (*comp
 		return nil, fmt.Errorf("only structs can be recomposed. %s is not a struct type", rt)
 	}
 	c := r.composers[full]
-	if c == nil {
+	if c == nil || c.rtype != rt {
 		c = &composer{
 			fun:   fun,
 			short: rt.Name(),
@@ -132,7 +132,7 @@ func (r *Recomposer) registerAnyComposer(rt reflect.Type, fun RecomposeAnyFunc) 
 		return nil, fmt.Errorf("only structs can be recomposed. %s is not a struct type", rt)
 	}
 	c := r.composers[full]
-	if c == nil {
+	if c == nil || c.rtype != rt {
 		c = &composer{
 			any:   fun,
 			short: rt.Name(),
@@ -146,6 +146,19 @@ func (r *Recomposer) registerAnyComposer(rt reflect.Type, fun RecomposeAnyFunc) 
 		c.any = fun
 	}
 	return c, nil
+}
+
+// composerFor returns the composer registered for exactly the type rt. The
+// short name alone does not identify a type, types in different packages can
+// share it and anonymous struct types have no name at all.
+func (r *Recomposer) composerFor(rt reflect.Type) *composer {
+	if c := r.composers[rt.Name()]; c != nil && c.rtype == rt {
+		return c
+	}
+	if c := r.composers[rt.PkgPath()+"/"+rt.Name()]; c != nil && c.rtype == rt {
+		return c
+	}
+	return nil
 }
 
 // Recompose simple data into more complex go types.
@@ -406,7 +419,7 @@ func (r *Recomposer) recomp(v any, rv reflect.Value) {
 	case reflect.Struct:
 		vm, ok := (v).(map[string]any)
 		if !ok {
-			if c := r.composers[rv.Type().Name()]; c != nil && c.any != nil {
+			if c := r.composerFor(rv.Type()); c != nil && c.any != nil {
 				if val, err := c.any(v); err == nil {
 					if val == nil {
 						break
@@ -444,7 +457,7 @@ func (r *Recomposer) recomp(v any, rv reflect.Value) {
 			return
 		}
 		var im map[string]reflect.StructField
-		if c := r.composers[rv.Type().Name()]; c != nil {
+		if c := r.composerFor(rv.Type()); c != nil {
 			if c.fun != nil {
 				if val, err := c.fun(vm); err == nil {
 					vv := reflect.ValueOf(val)
